@@ -92,11 +92,17 @@ class Ctx:
     def decide_int(self, sv):
         sv = sv.as_int()
         for v in range(sv.lo, sv.hi + 1):
+            c = compare('==', sv, v)
+            if c is True:
+                return v
+            if c is False:
+                continue
             if v == sv.hi:
-                self.commit(bexpr(compare('==', sv, v)))
+                self.commit(bexpr(c))
                 return v
-            if self.decide(compare('==', sv, v)):
+            if self.decide(c):
                 return v
+        raise Infeasible()
 
 
 def _sv_bool(self):
@@ -523,6 +529,8 @@ def match_known(known, job, gname, tags):
         if kf.get('harness') and kf['harness'] != job['harness'][1]:
             continue
         if kf.get('goal_prefix') and not gname.startswith(kf['goal_prefix']):
+            continue
+        if any(job['params'].get(k) != v for k, v in kf.get('params', {}).items()):
             continue
         if tags.get(kf['class']):
             return kf
